@@ -179,7 +179,7 @@ fn main() {
         }
         "io" => {
             let mut rep = Report::new("io");
-            d_io::run(&prop, seed, a.num("inputs", 4) as usize, a.get("trace"), &mut rep);
+            d_io::run(&prop, seed, a.num("inputs", 4) as usize, a.get("trace"), a.get("export"), &mut rep);
             finish(rep, &a);
         }
         "reader" => {
